@@ -58,6 +58,8 @@ def simple_tree(schema: Schema, full: str, rng: random.Random, depth: int = 2):
                 return simple_tree(schema, f.msg, rng, depth - 1) if depth > 0 else {}
             if t == "enum":
                 nums = schema.enums[f.enum].numbers
+                if rng.randrange(6) == 0:  # proto3 enums are open: a number the enum does not list
+                    return rng.choice([n for n in (max(nums) + 1, -7, 12345, 54321) if n not in nums and n < 2**31])
                 return rng.choice(nums)
             if t in INT_RANGES:
                 lo, hi = INT_RANGES[t]
@@ -98,6 +100,31 @@ def service_description(c: gen.Compiled, by_class_marker):
                 elif issubclass(obj, betterproto.ServiceStub) and obj is not betterproto.ServiceStub:
                     out[(pkg, name)] = sorted(k for k, v in vars(obj).items() if callable(v) and not k.startswith("_"))
     return out
+
+
+def foreign_library_types(c: gen.Compiled, pydantic: bool):
+    """Request / reply classes of the generated services that are not the package's own: they must come from the
+    library the variant's MESSAGE fields use (betterproto.lib.pydantic.* under pydantic_dataclasses, never otherwise),
+    or handler and codec disagree about the class of the very same well-known type."""
+    from betterproto.grpc.grpclib_server import ServiceBase
+
+    bad = []
+    own = {m.__name__ for m in c.modules.values()}
+    for pkg, mod in c.modules.items():
+        for name, obj in vars(mod).items():
+            if isinstance(obj, type) and obj.__module__ == mod.__name__ and issubclass(obj, ServiceBase) and obj is not ServiceBase:
+                try:
+                    mapping = obj().__mapping__()
+                except Exception:  # noqa: BLE001 (reported by the description comparison)
+                    continue
+                for route, h in mapping.items():
+                    for role, t in (("request", h.request_type), ("reply", h.reply_type)):
+                        modname = getattr(t, "__module__", "")
+                        if modname in own or not modname.startswith("betterproto.lib"):
+                            continue
+                        if (".pydantic." in modname) != pydantic:
+                            bad.append(f"{route} {role} type {modname}.{t.__name__}")
+    return bad
 
 
 def structure(c: gen.Compiled, pydantic: bool):
@@ -208,13 +235,17 @@ def targets(ctx):
                             kinds = ",".join(sorted({":".join(str(x) for x in (a[1].get(n) or b[1].get(n))[1:3]) for n in bad}))
                         fails.append(Failure("variant_structure_differs", f"{vname}|variant_structure_differs|{kinds or a[0]}", f"{fulls.get(mk, mk)}: default {a!r:.300} variant {b!r:.300}"))
                 s1 = service_description(c, bcm1)
+                wrong_lib = foreign_library_types(c, pyd)
+                if wrong_lib:
+                    fails.append(Failure("service_type_from_other_library", f"{vname}|service_type_from_other_library", f"{wrong_lib!r:.400}"))
                 if s1 != s0:
                     bad = sorted(str(k) for k in set(s0) | set(s1) if s0.get(k) != s1.get(k))
                     fails.append(Failure("variant_service_description_differs", f"{vname}|variant_service_description_differs", f"{bad}: default {[s0.get(k) for k in s0 if str(k) in bad]!r:.300} variant {[s1.get(k) for k in s1 if str(k) in bad]!r:.300}"))
                 # values
-                adapter = BPAdapter(schema)
                 for vs in vseeds:
                     rng = random.Random(vs)
+                    # enum values are handed over as members or as bare numbers (both are accepted input)
+                    adapter = BPAdapter(schema, enum_as="int" if rng.randrange(2) else "member")
                     marks = sorted(m for m in fulls if m in cbm0 and m in cbm1)
                     if not marks:
                         break
